@@ -3,6 +3,8 @@ package replay
 import (
 	"bytes"
 	"fmt"
+	"io"
+	"testing/iotest"
 
 	"github.com/ipld/go-ipld-prime/codec/dagcbor"
 	"github.com/ipld/go-ipld-prime/datamodel"
@@ -38,6 +40,21 @@ func DecodeCbor(inp []byte, opts dagcbor.DecodeOptions, np datamodel.NodePrototy
 	return
 }
 
+// chunkReader delivers exactly one chunk per Read (and nothing of the next one).
+type chunkReader struct{ chunks [][]byte }
+
+func (r *chunkReader) Read(p []byte) (int, error) {
+	for len(r.chunks) > 0 && len(r.chunks[0]) == 0 {
+		r.chunks = r.chunks[1:]
+	}
+	if len(r.chunks) == 0 {
+		return 0, io.EOF
+	}
+	n := copy(p, r.chunks[0])
+	r.chunks[0] = r.chunks[0][n:]
+	return n, nil
+}
+
 // ReplayCborDec compares the real strict decoder with the specified verdict for one input.
 func ReplayCborDec(cs *DecCase, relaxed bool, maxDepth int64) (*run.Finding, int) {
 	inp := model.Bytes(cs.Inp)
@@ -60,6 +77,47 @@ func ReplayCborDec(cs *DecCase, relaxed bool, maxDepth int64) (*run.Finding, int
 	n, err, p := DecodeCbor(inp, opts, basicnode.Prototype.Any)
 	if p != nil {
 		return fail("panic", fmt.Sprint(p)), 1
+	}
+	// The verdict is about the BYTES, not about how the reader happens to deliver them: one byte per Read, and the input
+	// cut into two reads just before its last byte and at one more place.
+	if len(inp) > 0 {
+		cutAt := []int{len(inp) - 1, (len(inp)*7 + int(inp[0])) % len(inp)}
+		for di := 0; di < 3; di++ {
+			var r io.Reader
+			how := "one byte per Read"
+			if di == 0 {
+				r = iotest.OneByteReader(bytes.NewReader(inp))
+			} else {
+				c := cutAt[di-1]
+				if c == 0 {
+					continue
+				}
+				r = &chunkReader{chunks: [][]byte{inp[:c], inp[c:]}}
+				how = fmt.Sprintf("delivered as two reads of %d and %d bytes", c, len(inp)-c)
+			}
+			var n2 datamodel.Node
+			var err2 error
+			p2 := model.Safe(func() {
+				nb := basicnode.Prototype.Any.NewBuilder()
+				err2 = opts.Decode(nb, r)
+				if err2 == nil {
+					n2 = nb.Build()
+				}
+			})
+			if p2 != nil {
+				return fail("panic", fmt.Sprintf("%s: %v", how, p2)), 2
+			}
+			if (err == nil) != (err2 == nil) {
+				return fail("verdict-depends-on-the-reader", fmt.Sprintf("from one buffer: err=%v; %s: err=%v", err, how, err2)), 2
+			}
+			if err == nil {
+				v1, e1 := model.Project(n)
+				v2, e2 := model.Project(n2)
+				if e1 != nil || e2 != nil || v1.String() != v2.String() {
+					return fail("value-depends-on-the-reader", fmt.Sprintf("%s: %v (%v) instead of %v (%v)", how, v2, e2, v1, e1)), 2
+				}
+			}
+		}
 	}
 	if cs.Verdict.Acc {
 		if err != nil {
